@@ -592,8 +592,13 @@ def main(argv):
     try:
         mod = importlib.import_module("harness." + a.prop)
         if a.replay:
-            scen = json.load(open(a.replay))
-            return mod.replay(run, scen)
+            # re-runs one recorded scenario against the real build; never touches the evidence file
+            try:
+                scen = json.load(open(a.replay))
+                return mod.replay(run, scen)
+            except Exception as e:
+                print(f"replay failed: {type(e).__name__}: {e}")
+                return 2
         nshards = getattr(mod, "SHARDS", {}).get(tier, 1) if shard is None else 1
         if os.environ.get("VERIF_SHARDS") and nshards > 1:
             nshards = max(2, int(os.environ["VERIF_SHARDS"]))         # development aid: fewer workers next to other runs
